@@ -9,6 +9,7 @@ import Mathlib.Tactic.Ring
 import Mathlib.Tactic.Linarith
 import Mathlib.Tactic.FieldSimp
 import Mathlib.Tactic.Positivity
+import Mathlib.Tactic.LinearCombination
 /-
 Rounding-error analysis for inner products, in ANY evaluation order (Higham, Accuracy and Stability
 of Numerical Algorithms, 2nd ed., Lemma 3.1, Lemma 8.4), over an arbitrary linearly ordered field.
@@ -254,5 +255,423 @@ theorem prod_one_add_eq (hu0 : 0 ≤ u) (d : Nat → F) (inv : Nat → Bool) (k 
     exact (prod_one_add hu0 hu1 d inv k hd).abs_sub_one_le hu0 hk
 
 end gam
+
+/-! ### (c) evaluation trees for `c - Σ aᵢ bᵢ` and Higham's Lemma 8.4 in every order
+
+Signs: floating-point negation is exact, so an evaluation that forms `-(a*b)`, `(-s) + t`, … is
+bit-for-bit one of the trees below (with `a` replaced by `-a` where needed); nothing is lost by
+keeping all leaves positive in `STree` and subtracting on the spine that carries `c`. -/
+
+/-- a sum of products in some association: every product and every addition is rounded once;
+`fma s a b` is `fl(s + a*b)` with a single rounding -/
+inductive STree (F : Type) where
+  | leaf (a b : F)
+  | add (s t : STree F)
+  | fma (s : STree F) (a b : F)
+
+/-- the spine that carries `c`: `sub t s` is `fl(t - s)` for a separately accumulated sum `s`
+(a panel / supernode / gemv block), `fms t a b` is `fl(t - a*b)` with a single rounding -/
+inductive CTree (F : Type) where
+  | lit (c : F)
+  | sub (t : CTree F) (s : STree F)
+  | fms (t : CTree F) (a b : F)
+
+/-- the products of a sum tree, left to right -/
+def STree.leaves : STree F → List (F × F)
+  | .leaf a b => [(a, b)]
+  | .add s t => s.leaves ++ t.leaves
+  | .fma s a b => s.leaves ++ [(a, b)]
+
+def CTree.leaves : CTree F → List (F × F)
+  | .lit _ => []
+  | .sub t s => t.leaves ++ s.leaves
+  | .fms t a b => t.leaves ++ [(a, b)]
+
+/-- the datum the products are subtracted from -/
+def CTree.head : CTree F → F
+  | .lit c => c
+  | .sub t _ => t.head
+  | .fms t _ _ => t.head
+
+/-- `s.Eval u y`: `y` is a value the tree can produce when every operation obeys the standard model -/
+inductive STree.Eval (u : F) : STree F → F → Prop
+  | leaf {a b y : F} : Rnd u (a * b) y → STree.Eval u (.leaf a b) y
+  | add {s t : STree F} {ys yt y : F} : STree.Eval u s ys → STree.Eval u t yt → Rnd u (ys + yt) y →
+      STree.Eval u (.add s t) y
+  | fma {s : STree F} {a b ys y : F} : STree.Eval u s ys → Rnd u (ys + a * b) y →
+      STree.Eval u (.fma s a b) y
+
+inductive CTree.Eval (u : F) : CTree F → F → Prop
+  | lit (c : F) : CTree.Eval u (.lit c) c
+  | sub {t : CTree F} {s : STree F} {yt ys y : F} : CTree.Eval u t yt → STree.Eval u s ys →
+      Rnd u (yt - ys) y → CTree.Eval u (.sub t s) y
+  | fms {t : CTree F} {a b yt y : F} : CTree.Eval u t yt → Rnd u (yt - a * b) y →
+      CTree.Eval u (.fms t a b) y
+
+/-- exact sum of the products and of their absolute values -/
+def dotSum (l : List (F × F)) : F := (l.map fun p => p.1 * p.2).sum
+def dotAbs (l : List (F × F)) : F := (l.map fun p => |p.1| * |p.2|).sum
+
+theorem dotSum_append (l l' : List (F × F)) : dotSum (l ++ l') = dotSum l + dotSum l' := by
+  simp [dotSum]
+theorem dotAbs_append (l l' : List (F × F)) : dotAbs (l ++ l') = dotAbs l + dotAbs l' := by
+  simp [dotAbs]
+theorem dotSum_perm {l l' : List (F × F)} (h : l.Perm l') : dotSum l = dotSum l' :=
+  (h.map _).sum_eq
+theorem dotAbs_perm {l l' : List (F × F)} (h : l.Perm l') : dotAbs l = dotAbs l' :=
+  (h.map _).sum_eq
+theorem dotAbs_nonneg (l : List (F × F)) : 0 ≤ dotAbs l := by
+  induction l with
+  | nil => simp [dotAbs]
+  | cons p l ih =>
+    have : dotAbs (p :: l) = |p.1| * |p.2| + dotAbs l := by simp [dotAbs]
+    rw [this]; positivity
+
+theorem dotSum_range (a b : Nat → F) (k : Nat) :
+    dotSum ((List.range k).map fun i => (a i, b i)) = ∑ i ∈ range k, a i * b i := by
+  induction k with
+  | zero => simp [dotSum]
+  | succ k ih =>
+    rw [List.range_succ, List.map_append, dotSum_append, ih, Finset.sum_range_succ]; simp [dotSum]
+theorem dotAbs_range (a b : Nat → F) (k : Nat) :
+    dotAbs ((List.range k).map fun i => (a i, b i)) = ∑ i ∈ range k, |a i| * |b i| := by
+  induction k with
+  | zero => simp [dotAbs]
+  | succ k ih =>
+    rw [List.range_succ, List.map_append, dotAbs_append, ih, Finset.sum_range_succ]; simp [dotAbs]
+
+/-- `PSum u k l y`: `y = Σ_{(a,b) ∈ l} a b r` with every `r` a perturbation factor of count `k` -/
+inductive PSum (u : F) (k : Nat) : List (F × F) → F → Prop
+  | nil : PSum u k [] 0
+  | cons {a b r y : F} {l : List (F × F)} : Fac u k r → PSum u k l y → PSum u k ((a, b) :: l) (a * b * r + y)
+
+section psum
+variable {u : F}
+
+theorem PSum.mono (hu0 : 0 ≤ u) (hu1 : u < 1) {j k : Nat} (hjk : j ≤ k) {l : List (F × F)} {y : F}
+    (h : PSum u j l y) : PSum u k l y := by
+  induction h with
+  | nil => exact .nil
+  | cons hr _ ih => exact .cons (hr.mono hu0 hu1 hjk) ih
+
+theorem PSum.append {k : Nat} {l l' : List (F × F)} {y y' : F}
+    (h : PSum u k l y) (h' : PSum u k l' y') : PSum u k (l ++ l') (y + y') := by
+  induction h with
+  | nil => simpa using h'
+  | cons hr _ ih =>
+    rw [List.cons_append, add_assoc]; exact .cons hr ih
+
+theorem PSum.scale (hu1 : u < 1) {j k : Nat} {l : List (F × F)} {y r : F}
+    (h : PSum u k l y) (hr : Fac u j r) : PSum u (k + j) l (y * r) := by
+  induction h with
+  | nil => simpa using PSum.nil
+  | @cons a b r' y l hr' _ ih =>
+    have : (a * b * r' + y) * r = a * b * (r' * r) + y * r := by ring
+    rw [this]; exact .cons (hr'.mul hu1 hr) ih
+
+theorem PSum.single {k : Nat} {r : F} (a b : F) (hr : Fac u k r) :
+    PSum u k [(a, b)] (a * b * r) := by
+  simpa using PSum.cons (a := a) (b := b) hr (PSum.nil (u := u) (k := k))
+
+/-- the perturbed sum is within `γ_k Σ|a||b|` of the exact sum -/
+theorem PSum.bound (hu0 : 0 ≤ u) {k : Nat} (hk : (k : F) * u < 1) {l : List (F × F)} {y : F}
+    (h : PSum u k l y) : |y - dotSum l| ≤ gamma u k * dotAbs l := by
+  induction h with
+  | nil => simp [dotSum, dotAbs]
+  | @cons a b r y l hr _ ih =>
+    have e1 : dotSum ((a, b) :: l) = a * b + dotSum l := by simp [dotSum]
+    have e2 : dotAbs ((a, b) :: l) = |a| * |b| + dotAbs l := by simp [dotAbs]
+    rw [e1, e2]
+    have : a * b * r + y - (a * b + dotSum l) = a * b * (r - 1) + (y - dotSum l) := by ring
+    rw [this]
+    refine (abs_add_le _ _).trans ?_
+    have h1 : |a * b * (r - 1)| ≤ gamma u k * (|a| * |b|) := by
+      rw [abs_mul, abs_mul, mul_comm]
+      exact mul_le_mul_of_nonneg_right (hr.abs_sub_one_le hu0 hk) (by positivity)
+    linarith
+
+end psum
+
+section trees
+variable {u : F}
+
+theorem STree.leaves_length_pos (s : STree F) : 0 < s.leaves.length := by
+  cases s with
+  | leaf a b => simp [STree.leaves]
+  | add s t => simp only [STree.leaves, List.length_append]; have := s.leaves_length_pos; omega
+  | fma s a b => simp [STree.leaves]
+
+/-- every value of a sum tree with `j` products is a perturbed sum with factors of count `j` -/
+theorem STree.Eval.psum (hu0 : 0 ≤ u) (hu1 : u < 1) {s : STree F} {y : F} (h : s.Eval u y) :
+    PSum u s.leaves.length s.leaves y := by
+  induction h with
+  | @leaf a b y h =>
+    obtain ⟨d, hd, rfl⟩ := h
+    exact PSum.single a b (Fac.one_add hu1 hd)
+  | @add s t ys yt y _ _ h ihs iht =>
+    obtain ⟨d, hd, rfl⟩ := h
+    have hs := s.leaves_length_pos
+    have ht := t.leaves_length_pos
+    simp only [STree.leaves, List.length_append]
+    have h1 := (ihs.mono hu0 hu1 (k := s.leaves.length + t.leaves.length - 1) (by omega)).append
+      (iht.mono hu0 hu1 (k := s.leaves.length + t.leaves.length - 1) (by omega))
+    have h2 := h1.scale hu1 (Fac.one_add hu1 hd)
+    have e : s.leaves.length + t.leaves.length - 1 + 1 = s.leaves.length + t.leaves.length := by omega
+    rwa [e] at h2
+  | @fma s a b ys y _ h ihs =>
+    obtain ⟨d, hd, rfl⟩ := h
+    simp only [STree.leaves, List.length_append, List.length_singleton]
+    have h0 : PSum u s.leaves.length [(a, b)] (a * b) := by
+      simpa using PSum.single a b (Fac.one u hu0 hu1 s.leaves.length)
+    exact (ihs.append h0).scale hu1 (Fac.one_add hu1 hd)
+
+/-- **spine invariant**: a value `y` of a tree with `k` products satisfies `y r₀ = c - Σ aᵢ bᵢ rᵢ`
+with `r₀` and all `rᵢ` perturbation factors of count `k` -/
+theorem CTree.Eval.psum (hu0 : 0 ≤ u) (hu1 : u < 1) {T : CTree F} {y : F} (h : T.Eval u y) :
+    ∃ r0 y' : F, Fac u T.leaves.length r0 ∧ PSum u T.leaves.length T.leaves y' ∧ y * r0 = T.head - y' := by
+  induction h with
+  | lit c => exact ⟨1, 0, Fac.one u hu0 hu1 _, .nil, by simp [CTree.head]⟩
+  | @sub t s yt ys y _ hs h ih =>
+    obtain ⟨r0, y', hr0, hy', e⟩ := ih
+    obtain ⟨d, hd, rfl⟩ := h
+    have hpos := one_add_pos hu1 hd
+    have hsl := s.leaves_length_pos
+    have hps := hs.psum hu0 hu1
+    simp only [CTree.leaves, List.length_append, CTree.head]
+    refine ⟨r0 / (1 + d), y' + ys * r0, ?_, ?_, ?_⟩
+    · exact (hr0.div hu1 (Fac.one_add hu1 hd)).mono hu0 hu1 (by omega)
+    · refine (hy'.mono hu0 hu1 (by omega)).append ?_
+      have := hps.scale hu1 hr0
+      rwa [add_comm] at this
+    · field_simp
+      linear_combination e
+  | @fms t a b yt y _ h ih =>
+    obtain ⟨r0, y', hr0, hy', e⟩ := ih
+    obtain ⟨d, hd, rfl⟩ := h
+    have hpos := one_add_pos hu1 hd
+    simp only [CTree.leaves, List.length_append, List.length_singleton, CTree.head]
+    refine ⟨r0 / (1 + d), y' + a * b * r0, ?_, ?_, ?_⟩
+    · exact hr0.div hu1 (Fac.one_add hu1 hd)
+    · exact (hy'.mono hu0 hu1 (by omega)).append
+        (PSum.single a b (hr0.mono hu0 hu1 (by omega)))
+    · field_simp
+      linear_combination e
+
+/-- from the invariant to Higham's form -/
+theorem bound_of_psum (hu0 : 0 ≤ u) {k : Nat} (hk : (k : F) * u < 1) {l : List (F × F)}
+    {c bk y r0 y' : F} (hr0 : Fac u k r0) (hy' : PSum u k l y') (e : y * bk * r0 = c - y') :
+    |c - dotSum l - bk * y| ≤ gamma u k * (dotAbs l + |bk| * |y|) := by
+  have h1 := hr0.abs_sub_one_le hu0 hk
+  have h2 := hy'.bound hu0 hk
+  have : c - dotSum l - bk * y = bk * y * (r0 - 1) + (y' - dotSum l) := by linear_combination (-1 : F) * e
+  rw [this]
+  refine (abs_add_le _ _).trans ?_
+  have h3 : |bk * y * (r0 - 1)| ≤ gamma u k * (|bk| * |y|) := by
+    rw [abs_mul, abs_mul, mul_comm]
+    exact mul_le_mul_of_nonneg_right h1 (by positivity)
+  linarith
+
+end trees
+
+/-! #### Lemma 8.4, three ways of finishing -/
+
+section lemma84
+variable {u : F}
+
+/-- **Lemma 8.4, no division** (`k` products, any tree): the computed `y ≈ c - Σ aᵢ bᵢ` satisfies
+`|c - Σ aᵢ bᵢ - y| ≤ γ_k (Σ |aᵢ||bᵢ| + |y|)`. -/
+theorem lemma84_none (hu0 : 0 ≤ u) {T : CTree F} {y : F} (h : T.Eval u y)
+    (hk : (T.leaves.length : F) * u < 1) :
+    |T.head - dotSum T.leaves - y| ≤ gamma u T.leaves.length * (dotAbs T.leaves + |y|) := by
+  rcases Nat.eq_zero_or_pos T.leaves.length with h0 | h0
+  · -- no product at all: y = c
+    cases h with
+    | lit c => simp [CTree.leaves, CTree.head, dotSum, dotAbs, gamma]
+    | @sub t s _ _ _ _ _ _ =>
+      have := s.leaves_length_pos; simp only [CTree.leaves, List.length_append] at h0; omega
+    | fms _ _ => simp [CTree.leaves] at h0
+  · have hu1 : u < 1 := by
+      have : (1 : F) ≤ T.leaves.length := by exact_mod_cast h0
+      nlinarith
+    obtain ⟨r0, y', hr0, hy', e⟩ := h.psum hu0 hu1
+    have := bound_of_psum hu0 hk (bk := 1) hr0 hy' (by simpa using e)
+    simpa using this
+
+/-- **Lemma 8.4 with a rounded division** `y = fl(w / b_k)`, `w` any tree value (`k` products):
+`|c - Σ aᵢ bᵢ - b_k y| ≤ γ_{k+1} (Σ |aᵢ||bᵢ| + |b_k||y|)`. -/
+theorem lemma84_div (hu0 : 0 ≤ u) {T : CTree F} {w bk y : F} (h : T.Eval u w) (hb : bk ≠ 0)
+    (hy : Rnd u (w / bk) y) (hk : ((T.leaves.length + 1 : Nat) : F) * u < 1) :
+    |T.head - dotSum T.leaves - bk * y| ≤ gamma u (T.leaves.length + 1) * (dotAbs T.leaves + |bk| * |y|) := by
+  have hu1 : u < 1 := by
+    have : (1 : F) ≤ ((T.leaves.length + 1 : Nat) : F) := by exact_mod_cast Nat.succ_pos _
+    nlinarith
+  obtain ⟨r0, y', hr0, hy', e⟩ := h.psum hu0 hu1
+  obtain ⟨d, hd, rfl⟩ := hy
+  have hpos := one_add_pos hu1 hd
+  refine bound_of_psum hu0 hk (r0 := r0 / (1 + d)) (hr0.div hu1 (Fac.one_add hu1 hd))
+    (hy'.mono hu0 hu1 (by omega)) ?_
+  field_simp
+  linear_combination e
+
+/-- **Lemma 8.4 with a rounded reciprocal** (what `[sdcz]pivotL` does: `temp = 1.0 / pivot`, then
+`l *= temp`): `ρ = fl(1 / b_k)`, `y = fl(w ρ)`:
+`|c - Σ aᵢ bᵢ - b_k y| ≤ γ_{k+2} (Σ |aᵢ||bᵢ| + |b_k||y|)`. -/
+theorem lemma84_recip (hu0 : 0 ≤ u) {T : CTree F} {w bk ρ y : F} (h : T.Eval u w) (hb : bk ≠ 0)
+    (hρ : Rnd u (1 / bk) ρ) (hy : Rnd u (w * ρ) y) (hk : ((T.leaves.length + 2 : Nat) : F) * u < 1) :
+    |T.head - dotSum T.leaves - bk * y| ≤ gamma u (T.leaves.length + 2) * (dotAbs T.leaves + |bk| * |y|) := by
+  have hu1 : u < 1 := by
+    have : (1 : F) ≤ ((T.leaves.length + 2 : Nat) : F) := by exact_mod_cast Nat.succ_pos _
+    nlinarith
+  obtain ⟨r0, y', hr0, hy', e⟩ := h.psum hu0 hu1
+  obtain ⟨d1, hd1, rfl⟩ := hρ
+  obtain ⟨d2, hd2, rfl⟩ := hy
+  have hp1 := one_add_pos hu1 hd1
+  have hp2 := one_add_pos hu1 hd2
+  refine bound_of_psum hu0 hk (r0 := r0 / (1 + d1) / (1 + d2))
+    ((hr0.div hu1 (Fac.one_add hu1 hd1)).div hu1 (Fac.one_add hu1 hd2))
+    (hy'.mono hu0 hu1 (by omega)) ?_
+  field_simp
+  linear_combination e
+
+end lemma84
+
+/-! #### one interface for the three cases -/
+
+/-- how the accumulated value `w` becomes the stored entry -/
+inductive Finish where
+  | none    -- stored as is (the divisor is 1: rows of U, forward substitution with unit L)
+  | div     -- `fl(w / b_k)`
+  | recip   -- `fl(w * fl(1 / b_k))`
+deriving DecidableEq, Repr
+
+/-- extra roundings on top of the `k` of the inner product -/
+def Finish.cost : Finish → Nat
+  | .none => 0
+  | .div => 1
+  | .recip => 2
+
+def Finish.Eval (u bk : F) : Finish → F → F → Prop
+  | .none, w, y => bk = 1 ∧ y = w
+  | .div, w, y => bk ≠ 0 ∧ Rnd u (w / bk) y
+  | .recip, w, y => bk ≠ 0 ∧ ∃ ρ, Rnd u (1 / bk) ρ ∧ Rnd u (w * ρ) y
+
+/-- `Dot u c l bk f y`: `y` is a computed value of `(c - Σ_{(a,b) ∈ l} a b) / bk`, obtained from
+SOME evaluation tree whose products are the pairs of `l` in some order, finished by `f` -/
+def Dot (u c : F) (l : List (F × F)) (bk : F) (f : Finish) (y : F) : Prop :=
+  ∃ T : CTree F, T.head = c ∧ T.leaves.Perm l ∧ ∃ w, T.Eval u w ∧ f.Eval u bk w y
+
+/-- **Higham Lemma 8.4, order-independent form.**  For every evaluation tree of
+`(c - Σ_{i<k} aᵢ bᵢ)/b_k` (any association and order of the products, additions, subtractions, with
+or without fused multiply-adds, the division exact-free (`none`), rounded (`div`) or replaced by a
+rounded reciprocal and a rounded product (`recip`)), with `k' = k + f.cost`, `k' u < 1`:
+`|c - Σ aᵢ bᵢ - b_k y| ≤ γ_{k'} (Σ |aᵢ||bᵢ| + |b_k||y|)`. -/
+theorem Dot.bound {u : F} (hu0 : 0 ≤ u) {c bk y : F} {l : List (F × F)} {f : Finish}
+    (h : Dot u c l bk f y) (hk : ((l.length + f.cost : Nat) : F) * u < 1) :
+    |c - dotSum l - bk * y| ≤ gamma u (l.length + f.cost) * (dotAbs l + |bk| * |y|) := by
+  obtain ⟨T, rfl, hperm, w, hw, hf⟩ := h
+  rw [← dotSum_perm hperm, ← dotAbs_perm hperm, ← hperm.length_eq] at *
+  cases f with
+  | none =>
+    obtain ⟨rfl, rfl⟩ := hf
+    simpa [Finish.cost] using lemma84_none hu0 hw (by simpa [Finish.cost] using hk)
+  | div => exact lemma84_div hu0 hw hf.1 hf.2 hk
+  | recip =>
+    obtain ⟨hb, ρ, hρ, hy⟩ := hf
+    exact lemma84_recip hu0 hw hb hρ hy hk
+
+/-- the same with any larger constant (monotonicity of `γ`) -/
+theorem Dot.bound_le {u : F} (hu0 : 0 ≤ u) {c bk y : F} {l : List (F × F)} {f : Finish}
+    (h : Dot u c l bk f y) {K : Nat} (hK : l.length + f.cost ≤ K) (hk : (K : F) * u < 1) :
+    |c - dotSum l - bk * y| ≤ gamma u K * (dotAbs l + |bk| * |y|) := by
+  refine (h.bound hu0 (mul_lt_one_of_le hu0 hK hk)).trans ?_
+  exact mul_le_mul_of_nonneg_right (gamma_mono hu0 hK hk)
+    (add_nonneg (dotAbs_nonneg l) (by positivity))
+
+/-- indexed form: `l = [(a 0, b 0), …, (a (k-1), b (k-1))]` -/
+theorem Dot.bound_range {u : F} (hu0 : 0 ≤ u) {c bk y : F} (a b : Nat → F) (k : Nat) {f : Finish}
+    (h : Dot u c ((List.range k).map fun i => (a i, b i)) bk f y) {K : Nat} (hK : k + f.cost ≤ K)
+    (hk : (K : F) * u < 1) :
+    |c - ∑ i ∈ range k, a i * b i - bk * y| ≤ gamma u K * (∑ i ∈ range k, |a i| * |b i| + |bk| * |y|) := by
+  have := h.bound_le hu0 (K := K) (by simpa using hK) hk
+  rwa [dotSum_range, dotAbs_range] at this
+
+/-! #### the trees are inhabited: left-to-right evaluation in any `FlModel` -/
+
+/-- the left-to-right tree `(((c - a₀b₀) - a₁b₁) - …)` with separately rounded products -/
+def leftTree (c : F) : List (F × F) → CTree F
+  | [] => .lit c
+  | p :: l => .sub (leftTree c l) (.leaf p.1 p.2)
+
+/-- its value in a concrete arithmetic (the LAST pair of the list is subtracted first) -/
+def leftEval (M : FlModel F) (c : F) : List (F × F) → F
+  | [] => c
+  | p :: l => M.sub (leftEval M c l) (M.mul p.1 p.2)
+
+theorem leftTree_head (c : F) (l : List (F × F)) : (leftTree c l).head = c := by
+  induction l with
+  | nil => rfl
+  | cons p l ih => simpa [leftTree, CTree.head] using ih
+
+theorem leftTree_leaves (c : F) (l : List (F × F)) : (leftTree c l).leaves.Perm l := by
+  induction l with
+  | nil => simp [leftTree, CTree.leaves]
+  | cons p l ih =>
+    simp only [leftTree, CTree.leaves, STree.leaves]
+    exact (List.perm_append_comm.trans (by simpa using ih))
+
+theorem leftTree_eval (M : FlModel F) (c : F) (l : List (F × F)) :
+    (leftTree c l).Eval M.u (leftEval M c l) := by
+  induction l with
+  | nil => exact .lit c
+  | cons p l ih => exact .sub ih (.leaf (M.mul_rnd _ _)) (M.sub_rnd _ _)
+
+/-- the same with one fused multiply-subtract per term -/
+def leftTreeFma (c : F) : List (F × F) → CTree F
+  | [] => .lit c
+  | p :: l => .fms (leftTreeFma c l) p.1 p.2
+
+def leftEvalFma (M : FlModel F) (c : F) : List (F × F) → F
+  | [] => c
+  | p :: l => M.fma (-p.1) p.2 (leftEvalFma M c l)
+
+theorem leftTreeFma_head (c : F) (l : List (F × F)) : (leftTreeFma c l).head = c := by
+  induction l with
+  | nil => rfl
+  | cons p l ih => simpa [leftTreeFma, CTree.head] using ih
+
+theorem leftTreeFma_leaves (c : F) (l : List (F × F)) : (leftTreeFma c l).leaves.Perm l := by
+  induction l with
+  | nil => simp [leftTreeFma, CTree.leaves]
+  | cons p l ih =>
+    simp only [leftTreeFma, CTree.leaves]
+    exact (List.perm_append_comm.trans (by simpa using ih))
+
+theorem leftTreeFma_eval (M : FlModel F) (c : F) (l : List (F × F)) :
+    (leftTreeFma c l).Eval M.u (leftEvalFma M c l) := by
+  induction l with
+  | nil => exact .lit c
+  | cons p l ih =>
+    refine .fms ih ?_
+    have := M.fma_rnd (-p.1) p.2 (leftEvalFma M c l)
+    have e : -p.1 * p.2 + leftEvalFma M c l = leftEvalFma M c l - p.1 * p.2 := by ring
+    rwa [e] at this
+
+/-- left-to-right evaluation in any arithmetic obeying the model is a `Dot` -/
+theorem dot_left (M : FlModel F) (c : F) (l : List (F × F)) :
+    Dot M.u c l 1 .none (leftEval M c l) :=
+  ⟨leftTree c l, leftTree_head c l, leftTree_leaves c l, _, leftTree_eval M c l, rfl, rfl⟩
+
+theorem dot_left_div (M : FlModel F) (c : F) (l : List (F × F)) (bk : F) (hb : bk ≠ 0) :
+    Dot M.u c l bk .div (M.div (leftEval M c l) bk) :=
+  ⟨leftTree c l, leftTree_head c l, leftTree_leaves c l, _, leftTree_eval M c l, hb, M.div_rnd _ _ hb⟩
+
+theorem dot_left_recip (M : FlModel F) (c : F) (l : List (F × F)) (bk : F) (hb : bk ≠ 0) :
+    Dot M.u c l bk .recip (M.mul (leftEval M c l) (M.div 1 bk)) :=
+  ⟨leftTree c l, leftTree_head c l, leftTree_leaves c l, _, leftTree_eval M c l, hb, _,
+    M.div_rnd _ _ hb, M.mul_rnd _ _⟩
+
+theorem dot_leftFma (M : FlModel F) (c : F) (l : List (F × F)) :
+    Dot M.u c l 1 .none (leftEvalFma M c l) :=
+  ⟨leftTreeFma c l, leftTreeFma_head c l, leftTreeFma_leaves c l, _, leftTreeFma_eval M c l, rfl, rfl⟩
 
 end Slu.Rounding
